@@ -456,7 +456,13 @@ class BlockNet(Engine):
                 txs[0]['vout'].append({'value': 0, 'script': self._sigop_script(k)})
                 need -= k
         elif rule in ('size-at-limit', 'size-over-limit'):
-            want = 1000000 if rule == 'size-at-limit' else 1000001
+            want = 1000000 if rule == 'size-at-limit' else 1000001 + (r[4] % 2)
+            if r[2] % 3 == 0:
+                # two boundaries at once: the transaction COUNT sits where its own length prefix changes size
+                target = (252, 253, 254)[(r[2] // 3) % 3]
+                while len(txs) < target:
+                    txs.append(copy.deepcopy(self._filler_tx(r[5] + len(txs))))
+                ctx.fault('size-limit-with-%d-transactions' % target)
             t = some_tx()
             t['vout'].append({'value': 0, 'script': ''})
             # pad with OP_RETURN-style data in several outputs (each script < 2^24)
